@@ -62,7 +62,8 @@ class StateHist(Engine):
     budgets = {"quick": 20.0, "thorough": 420.0}
     rule = (
         "script = seeded tree of UPState root/make_child operations over 3-6 ground fluents interleaved with "
-        "observers (get_value on every ground fluent of every state after every operation, hash, ==, repr) and "
+        "observers (get_value on every ground fluent of every state after every operation, hash, ==, repr), work on a CLONE of the "
+        "states' problem (write through its fluents_defaults, add_fluent, set_initial_value: no state may change) and "
         "rejected updates, under ancestor limit knob in {1,2,3,20,None} set either on UPState or on a subclass; "
         "non-trivial = at least one make_child took the condensing path (depth >= limit) AND at least one update "
         "wrote a value equal to the fluent's default AND at least one state-rewriting observer ran on a state "
